@@ -151,6 +151,7 @@ def run(ctx):
                  {"line": line, "pattern": pattern})
     for key, lst in sorted(agg.items()):
         ctx.violation(key, "%s  [%d case(s)]" % (lst[0][0][:600], len(lst)), lst[0][1])
+    ctx.require(len(uniq) >= 0.2 * len(recs), "only %d path membership questions for %d records" % (len(uniq), len(recs)))
     ctx.extra.update({"records": len(recs), "profiles_batches": len(batches), "membership_questions": len(uniq)})
 
 
